@@ -12,12 +12,32 @@
 //!   recursion       genuinely deep recursion (value-stack exhaustion is excepted by the statement)
 //!   quirk-partial-struct   struct literals that omit fields
 //!   quirk-bind-alt         match alternations mixing a binding with another variant
+//!   illtyped        the typed generators above only ever produce programs the checker is meant to
+//!                   accept, so a checker that accepts TOO MUCH is invisible to them. This workload
+//!                   takes accepted pure / command modules and applies ONE type-breaking mutation at
+//!                   the IR level (polkit::mutate): wrong-expr (a sub-expression replaced by one of
+//!                   another type, plain or next to a well-typed sibling in an if / match / `or` /
+//!                   block, biased towards positions typed by unification), ctor-swap (Ok<->Err,
+//!                   Some(e)<->e, binding patterns), decl (return / parameter / field / fact / command
+//!                   field type changed, bodies and callers untouched), arity (argument dropped or
+//!                   added: function, FFI, finish-function, action, `recall` calls), var-swap (variable
+//!                   of another type), global-let (global struct literal with an ill-typed / missing /
+//!                   unknown field). Every function and global additionally gets a well-typed consumer
+//!                   `zchk_*` that takes the value apart by its DECLARED type. Rejected mutants are
+//!                   only counted; accepted ones are executed like the other workloads and must not
+//!                   go wrong (signature c24:illtyped-<class>:<error>). `control` = consumers only.
+//!   quirk-map-return       an early `return` inside a `map` of a fallible action called from
+//!                          another action's `map` (query-iterator stack discipline)
+//!   quirk-recall-arity     `recall name(..)` with too few / too many arguments
+//!   quirk-bind-count       match arms that are all bindings of one variant, as many as the type has values
+//!   doc (replay only)      one entry point of a hand-written policy document, to confirm a finding
 use mon_polsem::{cmdrun::*, first_line, pure};
 use polkit::{
     cmdgen::{self, CmdCfg},
     r#gen::{self, GenCfg},
     io::Inject,
     ir::*,
+    mutate::{self, Class},
     print,
     run::{self, ErrClass},
 };
@@ -62,7 +82,7 @@ fn classify_end(
                 // workload and the error only; everywhere else the failing instruction is included
                 let sig = if let Some(c) = class {
                     format!("c24:{c}")
-                } else if workload.starts_with("quirk-") {
+                } else if workload.starts_with("quirk-") || workload.starts_with("illtyped-") {
                     format!("c24:{workload}:{}", run::err_name(&e.err_type))
                 } else {
                     format!("c24:{workload}:{}@{last_kind}", run::err_name(&e.err_type))
@@ -99,63 +119,76 @@ fn run_cmd_module(mon: &mut Monitor, mseed: u64) {
     let m = cmdgen::gen_command_module(&mut mr, &CmdCfg { reuse_names: mseed & 1 == 1 });
     let doc = print::document(&m);
     let Some(machine) = compile(mon, "cmd", &doc, mseed) else { return };
+    exec_cmd_module(mon, "cmd", &m, &doc, &machine, mseed, &json!({"workload": "cmd", "module_seed": mseed}));
+    if mon.samples.len() < 2 {
+        let src = print::source(&m);
+        mon.sample(|| json!({"module_seed": mseed, "workload": "cmd", "source_excerpt": src.chars().take(1800).collect::<String>()}));
+    }
+}
+
+/// Run every command (5 inputs, two with injected I/O failures), action (4 inputs) and pure
+/// function (4 argument vectors) of an accepted command module. `ident` = replay identity.
+fn exec_cmd_module(mon: &mut Monitor, workload: &str, m: &Module, doc: &str, machine: &aranya_policy_vm::Machine, mseed: u64, ident: &Value) {
     // (the substruct-to-empty-struct defect is repaired in /repo: no special input class any more)
     let class: Option<&str> = None;
     let mk_replay = |what: String, input: String| {
-        let doc = doc.clone();
-        move || json!({"workload": "cmd", "module_seed": mseed, "entry": what, "input": input, "doc": doc})
+        let doc = doc.to_string();
+        let id = ident.clone();
+        move || {
+            let mut id = id.clone();
+            id["entry"] = json!(what);
+            id["input"] = json!(input);
+            id["doc"] = json!(doc);
+            id
+        }
     };
     for ci in 0..m.commands.len() {
         for k in 0..5u64 {
             let mut ir = Rng::new(mix2(mseed, 0xC0DE + (ci as u64) * 64 + k));
-            let this: Vec<Val> = m.commands[ci].fields.iter().map(|(_, t)| cmdgen::small_val(&mut ir, &m, t)).collect();
-            let store = cmdgen::gen_store(&mut ir, &m);
+            let this: Vec<Val> = m.commands[ci].fields.iter().map(|(_, t)| cmdgen::small_val(&mut ir, m, t)).collect();
+            let store = cmdgen::gen_store(&mut ir, m);
             let inject = match k {
                 3 => Inject { fail_write_at: Some(ir.usize(3)), fail_query_at: None },
                 4 => Inject { fail_write_at: None, fail_query_at: Some(ir.usize(3)) },
                 _ => Inject::default(),
             };
-            let r = run_command(&machine, &m, ci, &this, &store, inject);
+            let r = run_command(machine, m, ci, &this, &store, inject);
             for kd in &r.kinds {
                 mon.seen("instruction_kinds", kd);
             }
             mon.count("command_runs", 1);
             let rp = mk_replay(format!("command {}", m.commands[ci].name), format!("this={this:?} store={store:?} inject={inject:?}"));
-            classify_end(mon, "cmd", class, &r.exit, r.last_kind, r.steps, mix2(hash_of(&m.commands[ci]), hash_of(&this)), &rp);
+            classify_end(mon, workload, class, &r.exit, r.last_kind, r.steps, mix2(hash_of(&m.commands[ci]), hash_of(&this)), &rp);
         }
     }
     for ai in 0..m.actions.len() {
         for k in 0..4u64 {
             let mut ir = Rng::new(mix2(mseed, 0xAC7 + (ai as u64) * 64 + k));
-            let args: Vec<Val> = m.actions[ai].params.iter().map(|(_, t)| cmdgen::small_val(&mut ir, &m, t)).collect();
-            let store = cmdgen::gen_store(&mut ir, &m);
+            let args: Vec<Val> = m.actions[ai].params.iter().map(|(_, t)| cmdgen::small_val(&mut ir, m, t)).collect();
+            let store = cmdgen::gen_store(&mut ir, m);
             let inject = if k == 3 { Inject { fail_write_at: None, fail_query_at: Some(ir.usize(2)) } } else { Inject::default() };
-            let r = run_action(&machine, &m, ai, &args, &store, inject);
+            let r = run_action(machine, m, ai, &args, &store, inject);
             for kd in &r.kinds {
                 mon.seen("instruction_kinds", kd);
             }
             mon.count("action_runs", 1);
             mon.count("commands_published", r.obs.publishes);
             let rp = mk_replay(format!("action {}", m.actions[ai].name), format!("args={args:?} store={store:?}"));
-            classify_end(mon, "cmd", class, &r.exit, r.last_kind, r.steps, mix2(hash_of(&m.actions[ai]), hash_of(&args)), &rp);
+            classify_end(mon, workload, class, &r.exit, r.last_kind, r.steps, mix2(hash_of(&m.actions[ai]), hash_of(&args)), &rp);
         }
     }
     // pure functions of the module (they may query facts): run with an empty store
     for (fi, f) in m.funcs.iter().enumerate() {
         let mut ar = Rng::new(mix2(mseed, 0xA765 + fi as u64));
-        for a in r#gen::gen_args(&mut ar, &m, f, 4) {
-            let Some(vm) = run::run_function(&machine, &m, &f.name, &a, true) else { continue };
+        for a in r#gen::gen_args(&mut ar, m, f, 4) {
+            let Some(vm) = run::run_function(machine, m, &f.name, &a, true) else { continue };
             for kd in &vm.kinds {
                 mon.seen("instruction_kinds", kd);
             }
             mon.count("function_runs", 1);
             let rp = mk_replay(format!("function {}", f.name), format!("args={a:?}"));
-            classify_end(mon, "cmd", class, &Some(vm.exit), vm.last_kind, vm.steps, mix2(hash_of(&f.body), hash_of(&a)), &rp);
+            classify_end(mon, workload, class, &Some(vm.exit), vm.last_kind, vm.steps, mix2(hash_of(&f.body), hash_of(&a)), &rp);
         }
-    }
-    if mon.samples.len() < 2 {
-        let src = print::source(&m);
-        mon.sample(|| json!({"module_seed": mseed, "workload": "cmd", "source_excerpt": src.chars().take(1800).collect::<String>()}));
     }
 }
 
@@ -182,6 +215,231 @@ fn run_quirk_module(mon: &mut Monitor, workload: &'static str, mseed: u64) {
     }
 }
 
+/// Mutation schedule per base module (wrong-expr is the richest class: three draws).
+const ILL_SCHEDULE: [Class; 8] =
+    [Class::WrongExpr, Class::CtorSwap, Class::Decl, Class::Arity, Class::VarSwap, Class::GlobalLet, Class::WrongExpr, Class::WrongExpr];
+
+fn illtyped_base(kind: &str, mseed: u64) -> Module {
+    let mut mr = Rng::new(mseed);
+    match kind {
+        "cmd" => cmdgen::gen_command_module(&mut mr, &CmdCfg { reuse_names: false }),
+        _ => r#gen::gen_module(&mut mr, &GenCfg::default()),
+    }
+}
+
+/// One accepted base module (pure or command), `ILL_SCHEDULE` single-mutation mutants of it.
+/// Rejected mutants are counted only; accepted ones are executed and classified.
+fn run_illtyped(mon: &mut Monitor, kind: &'static str, mseed: u64, only: Option<u64>) {
+    let base = illtyped_base(kind, mseed);
+    mon.count("illtyped_bases", 1);
+    if run::compile_doc(&print::document(&base)).is_err() {
+        // nothing can be learnt from mutants of a module the compiler refuses anyway
+        mon.count("illtyped_bases_rejected", 1);
+        return;
+    }
+    for k in 0..=(ILL_SCHEDULE.len() as u64) {
+        if only.is_some_and(|o| o != k) {
+            continue;
+        }
+        // slot 8: the control (consumers only), for every 4th base
+        let class = match ILL_SCHEDULE.get(k as usize) {
+            Some(c) => *c,
+            None if mseed % 4 == 0 || only.is_some() => Class::Control,
+            None => continue,
+        };
+        let mut r = Rng::new(mix2(mseed, 0x111_7000 + k));
+        let Some(mu) = mutate::mutate(&base, class, &mut r) else {
+            mon.count(&format!("illtyped_no_site_{}", class.name()), 1);
+            continue;
+        };
+        let m = &mu.module;
+        let doc = print::document(m);
+        mon.count("illtyped_generated", 1);
+        mon.count(&format!("illtyped_generated_{}", class.name()), 1);
+        mon.seen("illtyped_tags", &mu.tag);
+        let machine = match run::compile_doc(&doc) {
+            Ok(mc) => mc,
+            Err(rej) => {
+                mon.count("rejected_illtyped", 1);
+                mon.count(&format!("illtyped_rejected_{}", class.name()), 1);
+                let (stage, msg) = match &rej {
+                    run::Rejected::Parse(s) => ("parse", s),
+                    run::Rejected::Compile(s) => ("compile", s),
+                    run::Rejected::Load(s) => ("load", s),
+                };
+                // `invalid type: <the type>`: keep the kind of error, not the type
+                let mut why = first_line(msg);
+                if let Some(i) = why.find("invalid type:") {
+                    why.truncate(i + "invalid type".len());
+                }
+                mon.seen("illtyped_rejection_reasons", &format!("{stage}: {why}"));
+                if class == Class::Control {
+                    mon.seen("illtyped_control_rejection_reasons", &format!("{stage}: {why}"));
+                }
+                if std::env::var("POLSEM_DUMP_REJECTS").is_ok() {
+                    eprintln!("--- REJECTED illtyped {kind} seed {mseed} k {k} [{}] {}\n{rej:?}\n{doc}", mu.tag, mu.what);
+                }
+                continue;
+            }
+        };
+        mon.count("accepted_illtyped", 1);
+        mon.count(&format!("illtyped_accepted_{}", class.name()), 1);
+        mon.seen("illtyped_accepted_tags", &mu.tag);
+        if std::env::var("POLSEM_DUMP_ACCEPTS").is_ok() {
+            eprintln!("--- ACCEPTED illtyped {kind} seed {mseed} k {k} [{}] {}\n{doc}", mu.tag, mu.what);
+        }
+        let workload = format!("illtyped-{}", mu.tag);
+        let ident = json!({"workload": "illtyped", "base": kind, "module_seed": mseed, "mutant": k, "tag": mu.tag, "mutation": mu.what});
+        if kind == "cmd" {
+            exec_cmd_module(mon, &workload, m, &doc, &machine, mseed, &ident);
+        } else {
+            for (fi, f) in m.funcs.iter().enumerate() {
+                let mut ar = Rng::new(mix2(mseed, 0xA765 + fi as u64));
+                for a in r#gen::gen_args(&mut ar, m, f, 5) {
+                    let Some(vm) = run::run_function(&machine, m, &f.name, &a, false) else {
+                        mon.count("vm_step_budget_exhausted", 1);
+                        continue;
+                    };
+                    mon.count("function_runs", 1);
+                    let rp = || {
+                        let mut id = ident.clone();
+                        id["entry"] = json!(format!("function {}", f.name));
+                        id["input"] = json!(format!("args={a:?}"));
+                        id["doc"] = json!(doc);
+                        id
+                    };
+                    classify_end(mon, &workload, None, &Some(vm.exit), vm.last_kind, vm.steps, mix2(hash_of(&f.body), hash_of(&a)), &rp);
+                }
+            }
+        }
+        if mon.samples.len() < 4 && class != Class::Control {
+            let src = print::source(m);
+            mon.sample(|| json!({"workload": "illtyped", "base": kind, "module_seed": mseed, "mutant": k, "tag": mu.tag, "mutation": mu.what, "accepted": true, "source_excerpt": src.chars().take(1500).collect::<String>()}));
+        }
+    }
+}
+
+/// Dedicated probe: a fallible action returns from inside its `map` (the query iterator of that
+/// `map` is still on the iterator stack) and the calling action continues its own `map`.
+/// Hand-written, well-typed; accepted or not is the compiler's business, how it ends is ours.
+fn run_map_return(mon: &mut Monitor) {
+    let src = "---\npolicy-version: 2\n---\n\n```policy\nfact F[k int]=>{v int}\nfact G[a int]=>{b int}\n\naction inner(n int) result[unit, int] {\n    map G[a: ?] as g {\n        if g.b >= n {\n            return Err(g.b)\n        }\n    }\n    return Ok(Unit)\n}\n\naction outer(n int) {\n    map F[k: ?] as f {\n        action inner(n)\n        let x = f.v\n    }\n}\n\naction outer_same(n int) {\n    map G[a: ?] as f {\n        action inner(n)\n        let x = f.b\n    }\n}\n```\n";
+    let Some(machine) = compile(mon, "quirk-map-return", src, 0) else { return };
+    let int = |n: &str| (n.to_string(), Ty::Int);
+    let m = Module {
+        facts: vec![
+            FactDef { name: "F".into(), keys: vec![int("k")], vals: vec![int("v")], immutable: false },
+            FactDef { name: "G".into(), keys: vec![int("a")], vals: vec![int("b")], immutable: false },
+        ],
+        actions: ["inner", "outer", "outer_same"].iter().map(|n| ActionDef { name: n.to_string(), params: vec![int("n")], body: vec![] }).collect(),
+        ..Module::default()
+    };
+    for nf in 0..4i64 {
+        for ng in 0..4i64 {
+            let mut store: Store = vec![];
+            store.extend((0..nf).map(|i| (0usize, vec![Val::Int(i)], vec![Val::Int(10 + i)])));
+            store.extend((0..ng).map(|i| (1usize, vec![Val::Int(i)], vec![Val::Int(i)])));
+            for ai in 0..m.actions.len() {
+                for n in [0i64, 1, 2, 9] {
+                    let r = run_action(&machine, &m, ai, &[Val::Int(n)], &store, Inject::default());
+                    mon.count("map_return_runs", 1);
+                    let rp = || json!({"workload": "quirk-map-return", "action": m.actions[ai].name, "n": n, "facts_F": nf, "facts_G": ng, "doc": src});
+                    classify_end(mon, "quirk-map-return", None, &r.exit, r.last_kind, r.steps, hash_of(&(ai, n, nf, ng)), &rp);
+                }
+            }
+        }
+    }
+}
+
+/// Replay-only workload `doc`: run ONE entry point of a hand-written policy document (used to
+/// confirm a finding with a minimal program). Case format:
+/// `{"workload":"doc","doc":"<document>","function"|"action"|"command":"<name>","args":[..],
+///   "this":{"field":v,..},"store":[{"fact":"F","keys":{"k":1},"vals":{"v":2}}]}`
+/// (values: JSON bool / integer / string; optional `"as"`: workload label used in the signature).
+/// The end is printed (replay) and classified like any other.
+fn run_doc(mon: &mut Monitor, c: &Value, verbose: bool) {
+    let workload = c["as"].as_str().unwrap_or("doc").to_string();
+    fn val(v: &Value) -> Val {
+        match v {
+            Value::Bool(b) => Val::Bool(*b),
+            Value::Number(n) => Val::Int(n.as_i64().expect("integer")),
+            Value::String(s) => Val::Str(s.clone()),
+            _ => panic!("doc replay: only bool / integer / string values"),
+        }
+    }
+    fn ty(v: &Val) -> Ty {
+        match v {
+            Val::Bool(_) => Ty::Bool,
+            Val::Str(_) => Ty::Str,
+            _ => Ty::Int,
+        }
+    }
+    let named = |o: &Value| -> Vec<(String, Val)> { o.as_object().map(|m| m.iter().map(|(k, v)| (k.clone(), val(v))).collect()).unwrap_or_default() };
+    let doc = c["doc"].as_str().expect("doc").to_string();
+    let Some(machine) = compile(mon, &workload, &doc, 0) else {
+        if verbose {
+            eprintln!("doc: REJECTED by the compiler: {:?}", run::compile_doc(&doc).err());
+        }
+        return;
+    };
+    let args: Vec<Val> = c["args"].as_array().map(|a| a.iter().map(val).collect()).unwrap_or_default();
+    let mut m = Module::default();
+    let mut store: Store = vec![];
+    for e in c["store"].as_array().cloned().unwrap_or_default() {
+        let (name, keys, vals) = (e["fact"].as_str().expect("fact").to_string(), named(&e["keys"]), named(&e["vals"]));
+        let fi = m.facts.iter().position(|f| f.name == name).unwrap_or_else(|| {
+            let sig = |xs: &[(String, Val)]| xs.iter().map(|(n, v)| (n.clone(), ty(v))).collect();
+            m.facts.push(FactDef { name: name.clone(), keys: sig(&keys), vals: sig(&vals), immutable: false });
+            m.facts.len() - 1
+        });
+        store.push((fi, keys.into_iter().map(|(_, v)| v).collect(), vals.into_iter().map(|(_, v)| v).collect()));
+    }
+    let rp = || c.clone();
+    let (exit, last, steps) = if let Some(f) = c["function"].as_str() {
+        match run::run_function(&machine, &m, f, &args, true) {
+            Some(vm) => (Some(vm.exit), vm.last_kind, vm.steps),
+            None => (None, "?", 0),
+        }
+    } else if let Some(a) = c["action"].as_str() {
+        m.actions.push(ActionDef { name: a.into(), params: args.iter().enumerate().map(|(i, v)| (format!("a{i}"), ty(v))).collect(), body: vec![] });
+        let r = run_action(&machine, &m, 0, &args, &store, Inject::default());
+        (r.exit, r.last_kind, r.steps)
+    } else {
+        let this = named(&c["this"]);
+        m.commands.push(CommandDef { name: c["command"].as_str().expect("function / action / command").into(), fields: this.iter().map(|(n, v)| (n.clone(), ty(v))).collect(), policy: vec![], recalls: vec![] });
+        let vals: Vec<Val> = this.into_iter().map(|(_, v)| v).collect();
+        let r = run_command(&machine, &m, 0, &vals, &store, Inject::default());
+        (r.exit, r.last_kind, r.steps)
+    };
+    if verbose {
+        eprintln!("doc: ended with {exit:?} after {steps} steps (last instruction {last})");
+    }
+    classify_end(mon, &workload, None, &exit, last, steps, hash_of(&(&doc, c["args"].to_string(), c["this"].to_string())), &rp);
+}
+
+/// Hand-written probes of two checks the compiler does not make (found by the illtyped workload
+/// only now and then, probed here on every run so that the signatures are stable):
+///   quirk-recall-arity   `recall name(..)` with too few / too many arguments
+///   quirk-bind-count     a match whose arms are all bindings of ONE variant, as many as the
+///                        scrutinee type has values (`Some(a) Some(b) Some(c)` on option[bool])
+fn run_fixed_probes(mon: &mut Monitor) {
+    let wrap = |p: &str| format!("---\npolicy-version: 2\n---\n\n```policy\n{p}\n```\n");
+    let recall = wrap(
+        "command C {\n    fields { x int }\n    seal { return todo() }\n    open { return todo() }\n    policy {\n        if this.x == 0 {\n            recall r()\n        }\n        if this.x == 1 {\n            let v = saturating_add(5, recall r2(this.x))\n        }\n        recall r(this.x, 7)\n    }\n    recall r(n int) {\n        let m = saturating_add(n, 1)\n        finish {}\n    }\n    recall r2(n int, b bool) {\n        if b {\n            let m = saturating_add(n, 1)\n        }\n        finish {}\n    }\n}",
+    );
+    for x in 0..3 {
+        run_doc(mon, &json!({"workload": "doc", "as": "quirk-recall-arity", "doc": recall, "command": "C", "this": {"x": x}}), false);
+    }
+    let binds = wrap(
+        "function mko(flag bool) option[bool] {\n    if flag {\n        return Some(true)\n    }\n    return None\n}\nfunction mkr(flag bool) result[bool, bool] {\n    if flag {\n        return Ok(true)\n    }\n    return Err(true)\n}\nfunction f_opt(flag bool) int {\n    return match mko(flag) {\n        Some(a) => 1\n        Some(b) => 2\n        Some(c) => 3\n    }\n}\nfunction f_res(flag bool) int {\n    return match mkr(flag) {\n        Ok(a) => 1\n        Ok(b) => 2\n        Ok(c) => 3\n        Ok(d) => 4\n    }\n}\nfunction f_none(flag bool) int {\n    return match None {\n        Some(e) => 1\n    }\n}",
+    );
+    for f in ["f_opt", "f_res", "f_none"] {
+        for flag in [true, false] {
+            run_doc(mon, &json!({"workload": "doc", "as": "quirk-bind-count", "doc": binds, "function": f, "args": [flag]}), false);
+        }
+    }
+}
+
 /// Genuinely deep recursion: the only acceptable abnormal end is value-stack exhaustion.
 fn run_recursion(mon: &mut Monitor) {
     let src = "---\npolicy-version: 2\n---\n\n```policy\nfunction rec(n int) int {\n    if n <= 0 {\n        return 0\n    }\n    return saturating_add(1, rec(saturating_sub(n, 1)))\n}\nfunction tail(n int, acc int) int {\n    if n <= 0 {\n        return acc\n    }\n    return tail(saturating_sub(n, 1), saturating_add(acc, 1))\n}\n```\n";
@@ -203,7 +461,7 @@ fn run_recursion(mon: &mut Monitor) {
 fn new_mon() -> Monitor {
     Monitor::new(
         "C24",
-        "accepted generated code run in the VM and classified by its end: (pure-reuse) random pure modules reusing names of closed sibling/nested scopes with injected FFI failures; (cmd) modules with facts, effects, finish functions, commands (policy/recall/finish), actions (publish, action calls, map), exists/count/query on a model-backed MonitorIO with injected I/O failures; (recursion) deep recursion; (quirk-*) programs using accepted-but-dubious constructs: partial struct literals, binding alternations. non-trivial = execution of >= 8 VM steps or ending in an I/O error; distinct by hash(entry point body, input)",
+        "accepted generated code run in the VM and classified by its end: (pure-reuse) random pure modules reusing names of closed sibling/nested scopes with injected FFI failures; (cmd) modules with facts, effects, finish functions, commands (policy/recall/finish), actions (publish, action calls, map), exists/count/query on a model-backed MonitorIO with injected I/O failures; (recursion) deep recursion; (quirk-*) programs using accepted-but-dubious constructs: partial struct literals, binding alternations; (illtyped) accepted pure/command modules with ONE type-breaking IR mutation (wrong-expr, ctor-swap, decl, arity, var-swap, global-let) plus declared-type consumers of every function result and global - rejected mutants are only counted, accepted ones are executed; fixed probes quirk-map-return / quirk-recall-arity / quirk-bind-count. non-trivial = execution of >= 8 VM steps or ending in an I/O error; distinct by hash(entry point body, input)",
     )
     .min(2000)
     .require("end_Normal", "normal ends must be observed")
@@ -214,6 +472,15 @@ fn new_mon() -> Monitor {
     .require("command_runs", "command policies must be executed")
     .require("action_runs", "actions must be executed")
     .require("commands_published", "actions must publish commands")
+    .require("rejected_illtyped", "ill-typed mutants must be rejected by the compiler")
+    .require("accepted_illtyped", "accepted mutants (type-preserving by accident, or a checker hole) must be executed")
+    .require("illtyped_generated_wrong-expr", "mutation class must occur")
+    .require("illtyped_generated_ctor-swap", "mutation class must occur")
+    .require("illtyped_generated_decl", "mutation class must occur")
+    .require("illtyped_generated_arity", "mutation class must occur")
+    .require("illtyped_generated_var-swap", "mutation class must occur")
+    .require("illtyped_generated_global-let", "mutation class must occur")
+    .require("illtyped_accepted_control", "the unmutated control with consumers must be accepted and executed")
     .cap(64)
 }
 
@@ -238,6 +505,12 @@ fn main() {
             Some("quirk-partial-struct") => run_quirk_module(&mut mon, "quirk-partial-struct", mseed),
             Some("quirk-bind-alt") => run_quirk_module(&mut mon, "quirk-bind-alt", mseed),
             Some("recursion") => run_recursion(&mut mon),
+            Some("quirk-map-return") => run_map_return(&mut mon),
+            Some("doc") => run_doc(&mut mon, c, true),
+            Some("illtyped") => {
+                let kind = if c["base"].as_str() == Some("cmd") { "cmd" } else { "pure" };
+                run_illtyped(&mut mon, kind, mseed, c["mutant"].as_u64());
+            }
             Some("random") => {
                 let mut ms = pure::new_mons();
                 pure::run_module(
@@ -255,7 +528,13 @@ fn main() {
     let n_cmd = args.n(4000, 120_000);
     let n_pure = args.n(4000, 100_000);
     let n_quirk = args.n(300, 5_000);
+    // base modules; each yields 8 mutants (+ a control for every 4th)
+    let n_ill_pure = args.n(1600, 40_000);
+    let n_ill_cmd = args.n(1200, 30_000);
     let seed = args.seed;
+    // development aid: `--set only=illtyped` runs that workload alone (verdict then INCONCLUSIVE)
+    let only = args.get("only").map(str::to_owned);
+    let (n_cmd, n_pure, n_quirk) = if only.as_deref() == Some("illtyped") { (0, 0, 0) } else { (n_cmd, n_pure, n_quirk) };
     let time_cap = args.get_u64("time_cap_s", if args.tier == Tier::Quick { 240 } else { 3000 });
     let start = std::time::Instant::now();
     let parts = par_shards(cores(), |shard, nshards| {
@@ -268,7 +547,7 @@ fn main() {
                 false
             }
         };
-        for i in 0..(n_cmd as usize).div_ceil(nshards) as u64 {
+        for i in 0..if n_cmd == 0 { 0 } else { (n_cmd as usize).div_ceil(nshards) as u64 } {
             if capped(&mut w) {
                 break;
             }
@@ -276,7 +555,7 @@ fn main() {
         }
         // pure modules with name reuse (functions, not modules, are counted)
         let mut ms = pure::new_mons();
-        let my = (n_pure as usize).div_ceil(nshards);
+        let my = if n_pure == 0 { 0 } else { (n_pure as usize).div_ceil(nshards) };
         let (mut done, mut i) = (0usize, 0u64);
         while done < my && i < my as u64 * 4 + 16 {
             if capped(&mut w) {
@@ -286,12 +565,24 @@ fn main() {
             i += 1;
         }
         mon_polsem::merge(&mut w, ms.c24);
-        for i in 0..(n_quirk as usize).div_ceil(nshards) as u64 {
+        for i in 0..if n_quirk == 0 { 0 } else { (n_quirk as usize).div_ceil(nshards) as u64 } {
             if capped(&mut w) {
                 break;
             }
             run_quirk_module(&mut w, "quirk-partial-struct", mix2(mix2(seed, 0x24B), mix2(shard as u64, i)));
             run_quirk_module(&mut w, "quirk-bind-alt", mix2(mix2(seed, 0x24D), mix2(shard as u64, i)));
+        }
+        for i in 0..(n_ill_pure as usize).div_ceil(nshards) as u64 {
+            if capped(&mut w) {
+                break;
+            }
+            run_illtyped(&mut w, "pure", mix2(mix2(seed, 0x24E), mix2(shard as u64, i)), None);
+        }
+        for i in 0..(n_ill_cmd as usize).div_ceil(nshards) as u64 {
+            if capped(&mut w) {
+                break;
+            }
+            run_illtyped(&mut w, "cmd", mix2(mix2(seed, 0x24F), mix2(shard as u64, i)), None);
         }
         w
     });
@@ -299,6 +590,8 @@ fn main() {
         mon_polsem::merge(&mut mon, p);
     }
     run_recursion(&mut mon);
+    run_map_return(&mut mon);
+    run_fixed_probes(&mut mon);
     // one witness per signature after merging the workers
     let mut seen = std::collections::BTreeSet::new();
     mon.violations.retain(|v| seen.insert(v.signature.clone()));
